@@ -246,7 +246,10 @@ Proof.
   assert (O0 : others (nd s0) = others n) by (apply (fr_ae_pre others); frs).
   assert (S0 : self (nd s0) = self n) by (apply (fr_ae_pre self); frs).
   clearbody s0. unfold ae_body_of.
-  rewrite <- L0 in Hr. destruct (set_transmission_recv p s0 _ Hr) as [Hd Hst].
+  rewrite <- L0 in Hr.
+  assert (Hah : snap_ahead (Good sn) (applied (nd s0)) = true)
+    by (cbn; rewrite A0; apply negb_true_iff, N.leb_gt; exact Ha).
+  destruct (set_transmission_recv p s0 _ Hr Hah) as [Hd Hst].
   pose proof (fr_set_transmission applied) as F1. specialize (F1 ltac:(frs) p s0).
   pose proof (fr_set_transmission self_ver) as F2. specialize (F2 ltac:(frs) p s0).
   pose proof (fr_set_transmission log) as F3. specialize (F3 ltac:(frs) p s0).
